@@ -613,3 +613,29 @@ pub fn q_sqrt_ratio(x: &BigRational) -> BigRational {
 pub fn pow2neg(k: u32) -> BigRational {
     BigRational::new(BigInt::one(), BigInt::one() << k)
 }
+
+// ---------------------------------------------------------------------------------------------
+// Extra std / num traits that f32 and f64 have and that a refactor of the crate may start to require of its scalar
+// (`sum += x`, `iter().sum()`, `T::default()`, `{}` formatting, `T::PI()`, `x.into()`): implemented so that such a change
+// still builds against the harness instead of turning every check into a build error.
+impl std::ops::AddAssign for Q { fn add_assign(&mut self, o: Q) { *self = *self + o; } }
+impl std::ops::SubAssign for Q { fn sub_assign(&mut self, o: Q) { *self = *self - o; } }
+impl std::ops::MulAssign for Q { fn mul_assign(&mut self, o: Q) { *self = *self * o; } }
+impl std::ops::DivAssign for Q { fn div_assign(&mut self, o: Q) { *self = *self / o; } }
+impl std::ops::RemAssign for Q { fn rem_assign(&mut self, o: Q) { *self = *self % o; } }
+impl std::iter::Sum for Q { fn sum<I: Iterator<Item = Q>>(it: I) -> Q { it.fold(Q::zero(), |a, b| a + b) } }
+impl<'a> std::iter::Sum<&'a Q> for Q { fn sum<I: Iterator<Item = &'a Q>>(it: I) -> Q { it.fold(Q::zero(), |a, b| a + *b) } }
+impl std::iter::Product for Q { fn product<I: Iterator<Item = Q>>(it: I) -> Q { it.fold(Q::one(), |a, b| a * b) } }
+impl<'a> std::iter::Product<&'a Q> for Q { fn product<I: Iterator<Item = &'a Q>>(it: I) -> Q { it.fold(Q::one(), |a, b| a * *b) } }
+impl Default for Q { fn default() -> Q { Q::zero() } }
+impl std::fmt::Display for Q { fn fmt(&self, f: &mut std::fmt::Formatter<'_>) -> std::fmt::Result { write!(f, "{}", self.extract().show()) } }
+impl std::fmt::LowerExp for Q { fn fmt(&self, f: &mut std::fmt::Formatter<'_>) -> std::fmt::Result { write!(f, "{}", self.extract().show()) } }
+impl From<Q> for f64 { fn from(q: Q) -> f64 { q.to_f64_lossy() } }
+impl From<f32> for Q { fn from(x: f32) -> Q { Q::from_f64_exact(x as f64) } }
+macro_rules! q_consts { ($($name:ident = $val:expr),* $(,)?) => { impl num::traits::FloatConst for Q { $( fn $name() -> Q { Q::from_f64_exact($val) } )* } }; }
+q_consts!(
+    E = std::f64::consts::E, FRAC_1_PI = std::f64::consts::FRAC_1_PI, FRAC_1_SQRT_2 = std::f64::consts::FRAC_1_SQRT_2, FRAC_2_PI = std::f64::consts::FRAC_2_PI,
+    FRAC_2_SQRT_PI = std::f64::consts::FRAC_2_SQRT_PI, FRAC_PI_2 = std::f64::consts::FRAC_PI_2, FRAC_PI_3 = std::f64::consts::FRAC_PI_3, FRAC_PI_4 = std::f64::consts::FRAC_PI_4,
+    FRAC_PI_6 = std::f64::consts::FRAC_PI_6, FRAC_PI_8 = std::f64::consts::FRAC_PI_8, LN_10 = std::f64::consts::LN_10, LN_2 = std::f64::consts::LN_2, LOG10_E = std::f64::consts::LOG10_E,
+    LOG2_E = std::f64::consts::LOG2_E, PI = std::f64::consts::PI, SQRT_2 = std::f64::consts::SQRT_2,
+);
